@@ -10,6 +10,10 @@ package lib
 
 import (
 	"context"
+	"errors"
+	"regexp"
+	"sync/atomic"
+	"unicode"
 	"fmt"
 	golog "log"
 	"net"
@@ -44,8 +48,22 @@ type c19Ctx struct {
 	prefixTp   Transport
 }
 
+// c19DNSQuestions counts attempts to reach a name server. The C19 checks run with a resolver whose
+// dialer refuses: names resolve through /etc/hosts or not at all, and no packet leaves the process.
+var c19DNSQuestions int64
+
+func c19NoDNS(tb testing.TB) {
+	old := net.DefaultResolver
+	net.DefaultResolver = &net.Resolver{PreferGo: true, Dial: func(ctx context.Context, network, address string) (net.Conn, error) {
+		atomic.AddInt64(&c19DNSQuestions, 1)
+		return nil, errors.New("c19: no name server in this check")
+	}}
+	tb.Cleanup(func() { net.DefaultResolver = old })
+}
+
 func c19NewCtx(tb testing.TB) *c19Ctx {
 	tb.Helper()
+	c19NoDNS(tb)
 	dir := tb.TempDir()
 	x := &c19Ctx{dir: dir, confPath: filepath.Join(dir, "app_config.toml"), subnetPath: filepath.Join(dir, "phantom_subnets.toml"), local: c19LocalNets()}
 	s, err := c19ShippedText()
@@ -53,6 +71,14 @@ func c19NewCtx(tb testing.TB) *c19Ctx {
 		tb.Fatalf("harness problem: cannot read the shipped app_config.toml: %v", err)
 	}
 	x.shipped = s
+	for _, d := range append(append([]c19Dom(nil), c19DomOk...), c19DomWs...) {
+		if d.Host == "" {
+			continue
+		}
+		if re, err := regexp.Compile(d.Text); err != nil || !re.MatchString(d.Host) {
+			tb.Fatalf("harness problem: pool pattern %q does not match its host %q (%v)", d.Text, d.Host, err)
+		}
+	}
 	if err := c19EnsureGeoFiles(); err != nil {
 		tb.Fatalf("harness problem: %v", err)
 	}
@@ -190,7 +216,7 @@ func c19Enforced(x *c19Ctx, c c19Conf, conf *RegConfig, res *c19Result) (string,
 		for _, e := range l.Entries {
 			n, _, _ := c19ReadCIDR(e.Text)
 			for _, ip := range c19Probes(n) {
-				if pol.domainRefused(ip.String()) {
+				if pol.domainMaybeRefused(ip.String()) {
 					continue
 				}
 				ref, p := refusedCovert(ip)
@@ -235,28 +261,71 @@ func c19Enforced(x *c19Ctx, c c19Conf, conf *RegConfig, res *c19Result) (string,
 			}
 		}
 	}
-	// domain patterns
+	// domain patterns: the oracle is Go's regexp package applied to the entry as written. Hosts the
+	// pattern matches must be refused before any resolution; hosts that no configured pattern matches
+	// (in either case reading) must not be refused by the domain policy.
 	if l := c.list("covert_blocklist_domains"); l != nil {
+		hasUpper := func(h string) bool { return strings.IndexFunc(h, unicode.IsUpper) >= 0 }
 		for _, e := range l.Entries {
-			if e.Host == "" {
+			re, err := regexp.Compile(e.Text)
+			if err != nil {
+				continue // unreadable entries were dealt with above
+			}
+			matched, negViaPublic := false, false
+			for _, h := range c19DomCandidates(e) {
+				hp := net.JoinHostPort(h, "443")
+				isIP := net.ParseIP(h) != nil
+				if re.MatchString(h) {
+					matched = true
+					var ref bool
+					if p := c19Recover(func() { ref = conf.isBlocklistedCovertDomain(h) }); p != nil {
+						return "panic:policy", fmt.Sprintf("isBlocklistedCovertDomain(%q) panicked: %s", h, p.Val)
+					}
+					res.class("enforced-domain-probe")
+					if hasUpper(h) {
+						res.class("enforced-domain-probe:mixed-case-host")
+					}
+					if !ref {
+						return "dropped:covert_blocklist_domains", fmt.Sprintf("covert_blocklist_domains entry %q of an accepted configuration is not enforced: host %q matches it (regexp.MatchString) but is not refused", e.Text, h)
+					}
+					// refused before any resolution happens: no DNS question, no lookup reported
+					var out string
+					var lookup bool
+					q0 := atomic.LoadInt64(&c19DNSQuestions)
+					if p := c19Recover(func() { out, lookup = conf.ParseOrResolveBlocklisted(hp) }); p != nil {
+						return "panic:policy", fmt.Sprintf("ParseOrResolveBlocklisted(%q) panicked: %s", hp, p.Val)
+					}
+					if out != "" || lookup || atomic.LoadInt64(&c19DNSQuestions) != q0 {
+						return "dropped:covert_blocklist_domains", fmt.Sprintf("covert_blocklist_domains entry %q of an accepted configuration is not enforced: covert %q matches it but ParseOrResolveBlocklisted went on to resolve it (result %q, lookup=%v, DNS questions %d)", e.Text, hp, out, lookup, atomic.LoadInt64(&c19DNSQuestions)-q0)
+					}
+					continue
+				}
+				if isIP || pol.domainMaybeRefused(h) {
+					continue
+				}
+				var ref bool
+				if p := c19Recover(func() { ref = conf.isBlocklistedCovertDomain(h) }); p != nil {
+					return "panic:policy", fmt.Sprintf("isBlocklistedCovertDomain(%q) panicked: %s", h, p.Val)
+				}
+				res.class("domain-nonmatching-probe")
+				if ref {
+					return "domain:refuses-nonmatching", fmt.Sprintf("host %q matches none of the configured covert_blocklist_domains %q (in neither case reading) but the domain policy refuses it", h, c19Texts(l.Entries))
+				}
+				if !negViaPublic {
+					// once per entry through the public function: it must get as far as resolving the name
+					negViaPublic = true
+					var out string
+					var lookup bool
+					if p := c19Recover(func() { out, lookup = conf.ParseOrResolveBlocklisted(hp) }); p != nil {
+						return "panic:policy", fmt.Sprintf("ParseOrResolveBlocklisted(%q) panicked: %s", hp, p.Val)
+					}
+					if out == "" && !lookup {
+						return "domain:refuses-nonmatching", fmt.Sprintf("covert %q matches none of the configured covert_blocklist_domains %q but ParseOrResolveBlocklisted refuses it before resolving", hp, c19Texts(l.Entries))
+					}
+				}
+			}
+			if !matched {
 				res.class("domain-pattern-without-known-match")
-				continue
-			}
-			var ref bool
-			if p := c19Recover(func() { ref = conf.isBlocklistedCovertDomain(e.Host) }); p != nil {
-				return "panic:policy", fmt.Sprintf("isBlocklistedCovertDomain(%q) panicked: %s", e.Host, p.Val)
-			}
-			res.class("enforced-domain-probe")
-			if !ref {
-				return "dropped:covert_blocklist_domains", fmt.Sprintf("covert_blocklist_domains entry %q of an accepted configuration is not enforced: host %q (matching it) is not refused", e.Text, e.Host)
-			}
-			// refused before any resolution happens, so this does not touch the network
-			var out string
-			if p := c19Recover(func() { out, _ = conf.ParseOrResolveBlocklisted(net.JoinHostPort(e.Host, "443")) }); p != nil {
-				return "panic:policy", fmt.Sprintf("ParseOrResolveBlocklisted(%q) panicked: %s", e.Host, p.Val)
-			}
-			if out != "" {
-				return "dropped:covert_blocklist_domains", fmt.Sprintf("covert_blocklist_domains entry %q of an accepted configuration is not enforced: covert %q is not refused (got %q)", e.Text, net.JoinHostPort(e.Host, "443"), out)
 			}
 		}
 	}
@@ -762,10 +831,10 @@ func c19GenConfigCase(rt *rapid.T) c19ConfigCase {
 
 // TestVerif_C19_config: rapid-generated configurations over all optional keys at once.
 func TestVerif_C19_config(t *testing.T) {
-	rec := vh.NewRec("C19", "config", "rapid-generated station configurations: every optional key (4 liveness keys, GeoIP paths, worker count, share settings, v4/v6, public-address blocklisting, log level) independently {unset, zero, set, unusable value}, at most one key of the wrong TOML type, optional syntax garbage, optional ZMQ section; blocklist / allowlist / domain / phantom lists {unset, empty, 1-4 entries: pool or random CIDRs, stray whitespace, bare addresses, unparseable, bad regexps}; plus 0-4 registrations ingested before housekeeping. Loaded through ParseConfig from a temp file, brought up as main.go does. Non-trivial = differs from the shipped file in >= 1 key; distinct by (configuration, registrations)")
+	rec := vh.NewRec("C19", "config", "rapid-generated station configurations: every optional key (4 liveness keys, GeoIP paths, worker count, share settings, v4/v6, public-address blocklisting, log level) independently {unset, zero, set, unusable value}, at most one key of the wrong TOML type, optional syntax garbage, optional ZMQ section; blocklist / allowlist / domain / phantom lists {unset, empty, 1-4 entries: pool or random CIDRs, stray whitespace, bare addresses, unparseable, bad regexps, patterns drawn from the regexp syntax at large: [flag][anchor] 1-4 fragments [anchor] over literals in both cases, \\d \\D \\s \\S \\w \\W \\b \\B \\A \\z, POSIX and Unicode classes, (?i) (?s) (?U) and scoped flags, alternations, named groups, \\Q..\\E, hex escapes}; domain oracle = Go regexp on the entry as written over host spellings in written / upper / lower / swapped / title case, embedded and unrelated names: matching hosts refused by ParseOrResolveBlocklisted with no DNS question, hosts matching in neither case reading not refused by the domain policy; plus 0-4 registrations ingested before housekeeping. Loaded through ParseConfig from a temp file, brought up as main.go does. Non-trivial = differs from the shipped file in >= 1 key; distinct by (configuration, registrations)")
 	defer rec.Flush()
 	rec.Require("accepted", "rejected:parse", "live-cache:none", "live-cache:live-only", "live-cache:nonlive-only", "live-cache:both", "live-cache:bounded",
-		"enforced-blocklist-probe", "enforced-allowlist-probe", "enforced-phantom-probe", "enforced-domain-probe", "registry-non-empty",
+		"enforced-blocklist-probe", "enforced-allowlist-probe", "enforced-phantom-probe", "enforced-domain-probe", "enforced-domain-probe:mixed-case-host", "domain-nonmatching-probe", "registry-non-empty",
 		"ingest-buffer:zero-capacity", "ingest-buffer:positive-capacity")
 	x := c19NewCtx(t)
 	if p := vh.ReplayFile(); p != "" {
